@@ -120,6 +120,20 @@ func matchViaRule(pattern, name string) (matched bool, err error) {
 	return verr == nil, nil
 }
 
+// matchViaAllow observes the matcher through ALLOW rules that use the same pattern in the
+// material and in the product list of one item: the product `name` (which is not a material)
+// gets past the terminal DISALLOW * iff the pattern matches it.
+func matchViaAllow(pattern, name string) bool {
+	h := intoto.HashObj{"sha256": "aa"}
+	items := []interface{}{intoto.Step{Type: "step", SupplyChainItem: intoto.SupplyChainItem{Name: "src",
+		ExpectedMaterials: [][]string{{"ALLOW", pattern}},
+		ExpectedProducts:  [][]string{{"ALLOW", pattern}, {"DISALLOW", "*"}}}}}
+	md := map[string]intoto.Metadata{
+		"src": &intoto.Metablock{Signed: intoto.Link{Type: "link", Name: "src", Materials: map[string]intoto.HashObj{"zz-some-material": h}, Products: map[string]intoto.HashObj{name: h}}},
+	}
+	return intoto.VerifyArtifacts(items, md) == nil
+}
+
 func runC17(c *core.Ctx) {
 	patAlpha := []string{"a", "b", "/", "*", "?", "[", "]", "^", "-", "\\"}
 	nameAlpha := []string{"a", "b", "/", "-", "]"}
@@ -306,6 +320,13 @@ func runC17(c *core.Ctx) {
 				if got != want {
 					c.Violation(fmt.Sprintf("glob disagreement through the MATCH rule: consumed=%v reference match=%v", got, want), id, map[string]any{"pattern": pat, "name": name, "via": "MATCH <pattern> WITH PRODUCTS FROM dst; DISALLOW *"})
 				}
+				var got2 bool
+				if !c.Guard(id, "VerifyArtifacts(ALLOW)", map[string]any{"pattern": pat, "name": name}, func() { got2 = matchViaAllow(pat, name) }) {
+					c.Eval(1)
+					if got2 != want {
+						c.Violation(fmt.Sprintf("glob disagreement through ALLOW rules with the same pattern in the material and the product list: consumed=%v reference match=%v", got2, want), id, map[string]any{"pattern": pat, "name": name})
+					}
+				}
 			}
 		}
 		if i%70001 == 3 {
@@ -329,7 +350,7 @@ func init() {
 	core.Register(&core.Property{
 		ID:    "C17",
 		Level: "exploration",
-		Rule: "exhaustive: every pattern of length<=4 (quick) / <=6 (thorough) over {a b / * ? [ ] ^ - \\} x every name of length<=4 / <=5 over {a b / - ]}, plus seeded random ASCII and valid-UTF-8 patterns<=24 / names<=40 (half of the names derived from the pattern so that matches are frequent), plus token-based random patterns (1-7 tokens from {literal, *, ?, class, negated class, range, escape} with a name derived from them; a third of these pairs is also observed through the MATCH rule of VerifyArtifacts); " +
+		Rule: "exhaustive: every pattern of length<=4 (quick) / <=6 (thorough) over {a b / * ? [ ] ^ - \\} x every name of length<=4 / <=5 over {a b / - ]}, plus seeded random ASCII and valid-UTF-8 patterns<=24 / names<=40 (half of the names derived from the pattern so that matches are frequent), plus token-based random patterns (1-7 tokens from {literal, *, ?, class, negated class, range, escape} with a name derived from them; a third of these pairs is also observed through the MATCH rule of VerifyArtifacts and through ALLOW rules that use the pattern in both rule lists of one item); " +
 			"observation = len(NewSet(name).Filter(pattern))==1, oracle = reference matcher written from the documented grammar; non-trivial = the pattern contains a metacharacter; distinct = enumerated pairs are distinct by construction, random pairs by hash of (pattern,name)",
 		Assumptions: []string{
 			"the reference matcher encodes the documented grammar; a negated class containing a reversed range ([^b-a]) is not judged (counted as inconclusive)",
